@@ -2,6 +2,7 @@ package props
 
 import (
 	"crypto/sha256"
+	"encoding/json"
 	"fmt"
 	"math/rand"
 	"os"
@@ -73,7 +74,7 @@ func entryName(id string) string { return fmt.Sprintf("%x.protobom", sha256.Sum2
 func init() {
 	core.Register(&core.Prop{
 		ID: "C19", Level: "exploration",
-		Rule: "each case is a history of <=10 Store/Retrieve calls (one fresh child process per call, uid 65534; the FileSystem backend directly or through writer.Writer.Store / reader.Reader.Retrieve) against a map model id->document: configured directory missing (one or three levels deep) or existing; identifiers with path separators, dot-dot, absolute paths, unicode, newline, 1 MB, empty; both no-clobber settings; nil options. " +
+		Rule: "each case is a history of <=10 Store/Retrieve calls (two thirds of the cases: one fresh child process per call; one third: the whole history in ONE process on one FileSystem instance, sometimes with a second instance on the same directory, so that state kept inside the backend is observed; uid 65534; the FileSystem backend directly or through writer.Writer.Store / reader.Reader.Retrieve) against a map model id->document: configured directory missing (one or three levels deep) or existing; identifiers with path separators, dot-dot, absolute paths, unicode, newline, 1 MB, empty; both no-clobber settings; nil options. " +
 			"After EVERY call: the result is compared with the model (proto.Equal), every known id is retrieved again (isolation), the scratch tree around the configured path is listed with content hashes (confinement: every file lies inside the directory; no-clobber: existing entry bytes unchanged). " +
 			"Fault steps: unknown id, entry chmod 000, a directory in place of the entry, 0-byte / truncated / bit-flipped entry, and - under the ptrace injector - EACCES/EIO/ENOSPC/EMFILE on the k-th file-system syscall of a Store or Retrieve for EVERY k of the fault-free run; " +
 			"every outcome must be a document or an error RETURN: never a dead process, neither/both, or an empty document. A sample of stores runs under the tracer to check that every created/renamed path is under the directory. distinct = hash of the history; non-trivial = history with >=2 different ids stored.",
@@ -173,6 +174,10 @@ func c19Case(c *core.C) {
 			}
 		}
 		return true
+	}
+	if c.K%3 == 1 {
+		c19InProcess(c, base, outer, store, dirKind)
+		return
 	}
 	steps := 3 + r.Intn(8)
 	idsStored := gen.Set{}
@@ -415,5 +420,132 @@ func c19Case(c *core.C) {
 			}
 			restore()
 		}
+	}
+}
+
+
+// c19InProcess: the whole history runs in ONE child process on one FileSystem instance (plus, sometimes, a second
+// instance on the same directory), so that state kept inside the backend between calls is part of what is observed.
+func c19InProcess(c *core.C, base, outer, store string, dirKind int) {
+	r := c.R
+	type expect struct {
+		kind string // ok | err | doc | err-or-ok
+		doc  *sbom.Document
+		desc string
+	}
+	var script []histStep
+	var exps []expect
+	model := map[string]*sbom.Document{}
+	seq := 0
+	put := func(b []byte) string {
+		seq++
+		p := filepath.Join(base, fmt.Sprintf("h-%d", seq))
+		writeFileAll(p, b)
+		return p
+	}
+	short := func(id string) string {
+		if len(id) > 40 {
+			return id[:20] + fmt.Sprintf("…(%d bytes)", len(id))
+		}
+		return fmt.Sprintf("%q", id)
+	}
+	ids := []string{c19ID(r), c19ID(r), "urn:uuid:hot"} // few ids: repeated stores of the same identifier
+	steps := 4 + r.Intn(10)
+	useSecond := r.Intn(3) == 0
+	for s := 0; s < steps; s++ {
+		id := ids[r.Intn(len(ids))]
+		second := useSecond && r.Intn(2) == 0
+		if r.Intn(5) < 3 {
+			doc := c19Doc(r, id)
+			b, _ := proto.Marshal(doc)
+			nc := r.Intn(4) == 0
+			script = append(script, histStep{Op: "store", File: put(b), NoClobber: nc, Second: second})
+			_, existed := model[id]
+			switch {
+			case id == "":
+				exps = append(exps, expect{kind: "err", desc: "Store(no id)"})
+			case nc && existed:
+				exps = append(exps, expect{kind: "err", desc: "Store(" + short(id) + ",no-clobber) on existing"})
+			default:
+				exps = append(exps, expect{kind: "ok", desc: "Store(" + short(id) + ")"})
+				model[id] = doc
+			}
+		}
+		// retrieve (known or unknown)
+		rid := id
+		if r.Intn(4) == 0 {
+			rid = "urn:uuid:never-" + fmt.Sprint(r.Intn(100))
+		}
+		script = append(script, histStep{Op: "retrieve", File: put([]byte(rid)), Second: useSecond && r.Intn(2) == 0})
+		if d, ok := model[rid]; ok && rid != "" {
+			exps = append(exps, expect{kind: "doc", doc: d, desc: "Retrieve(" + short(rid) + ")"})
+		} else {
+			exps = append(exps, expect{kind: "err", desc: "Retrieve(" + short(rid) + ") never stored"})
+		}
+	}
+	sb, _ := json.Marshal(script)
+	chownR(base)
+	cmd := childCmd(true, "storehist", "-dir", store, "-script", put(sb))
+	out, _ := cmd.CombinedOutput()
+	c.Cover("in-process-histories")
+	if useSecond {
+		c.Cover("in-process-histories-with-two-instances")
+	}
+	var trace []string
+	for _, e := range exps {
+		trace = append(trace, e.desc)
+	}
+	fail := func(sig, format string, a ...any) {
+		c.Violatef(sig, map[string]any{"history": trace, "in_process": true, "two_instances": useSecond}, "in-process history %v: %s", trace, fmt.Sprintf(format, a...))
+	}
+	// split the output per step
+	parts := strings.Split(string(out), "STEP ")
+	results := map[int]childOut{}
+	for _, p := range parts[1:] {
+		var idx int
+		fmt.Sscanf(p, "%d BEGIN", &idx)
+		nl := strings.Index(p, "\n")
+		if nl < 0 {
+			continue
+		}
+		results[idx] = parseChildOutput([]byte(p[nl+1:]), 0, nil)
+	}
+	for i, e := range exps {
+		c.Evals(1)
+		o, ok := results[i]
+		if !ok || o.kind == "DIED" {
+			fail("in-process-died", "the process terminated at step %d (%s): %s", i, e.desc, strings.TrimSpace(string(out[max(0, len(out)-300):])))
+			return
+		}
+		switch e.kind {
+		case "ok":
+			if o.kind != "OK" {
+				fail("in-process-store-failed", "step %d %s returned %s %s", i, e.desc, o.kind, o.msg)
+				return
+			}
+		case "err":
+			if o.kind != "ERR" {
+				fail("in-process-error-expected:"+strings.SplitN(e.desc, "(", 2)[0], "step %d %s returned %s instead of an error", i, e.desc, o.kind)
+				return
+			}
+		case "doc":
+			if o.kind != "DOC" {
+				fail("in-process-retrieve-failed", "step %d %s returned %s %s", i, e.desc, o.kind, o.msg)
+				return
+			}
+			if !proto.Equal(o.doc, e.doc) {
+				fail("in-process-retrieve-differs", "step %d %s returned a document different from the last one stored under that identifier: %s", i, e.desc, firstDiffDeep(e.doc, o.doc))
+				return
+			}
+		}
+	}
+	for p := range treeState(outer) {
+		if !strings.HasPrefix(p, store+"/") && p != filepath.Join(outer, "sibling", "keep.txt") {
+			fail("file-outside-directory", "a file appeared outside the configured directory: %s", p)
+			return
+		}
+	}
+	if len(model) >= 2 {
+		c.DistinctStr("inproc:" + strings.Join(trace, ";")[:min(1500, len(strings.Join(trace, ";")))])
 	}
 }
